@@ -229,8 +229,10 @@ pub fn server_half(rep: &mut Report, tier: Tier) {
     for version in [Some("2"), Some("1")] {
         cases.push(Case { version, accepting: false, domain: true, early_data: false, blackhole: false, unresolvable: true });
     }
+    // a target whose connect stays pending for the handler's full 15 s (runs concurrently with the other cases)
+    cases.push(Case { version: Some("2"), accepting: true, domain: false, early_data: false, blackhole: true, unresolvable: false });
     if tier.is_thorough() {
-        cases.push(Case { version: Some("2"), accepting: true, domain: false, early_data: false, blackhole: true, unresolvable: false });
+        cases.push(Case { version: Some("1"), accepting: true, domain: false, early_data: true, blackhole: true, unresolvable: false });
     }
     let results = block_on(async {
         let mut hs = vec![];
